@@ -255,6 +255,17 @@ SolvePDEWith(v, entry) ==
   /\ UNCHANGED <<bcAlive, bcC, bcPer, everShared, alive, bcOf, precalc>>
 SolvePDE(v) == SolvePDEWith(v, NeedsApply(v))
 
+(* solvePDE(v, terms) raises while it assembles the system (an unknown term object, a vector of the wrong size after
+   valid terms were already added): nothing is stored; only the entry check may have run.  What the failed call
+   leaves behind must not show in any later solve. *)
+SolveFails(v) ==
+  /\ alive[v] /\ HasCache(v)
+  /\ IF NeedsApply(v) THEN Applied(v, intC[v])
+     ELSE UNCHANGED <<ghostFrom, cacheFrom, bcDirty, valDirty>>
+  /\ use' = NoUse
+  /\ last' = [name |-> "SolveFails", args |-> <<v>>]
+  /\ UNCHANGED <<bcAlive, bcC, bcPer, everShared, alive, bcOf, intC, precalc>>
+
 (* r = solveExplicitPDE(v, dt, RHS): entry check on v ; new variable r SHARING v's BC object *)
 SolveExplicitWith(v, r, entry) ==
   /\ alive[v] /\ r \in FreeVars
@@ -331,6 +342,7 @@ Next ==
   \/ \E v, r \in Vars, b \in BCs, op \in Ops : Arith(v, r, b, op)
   \/ \E v \in Vars : ApplyBCs(v)
   \/ \E v \in Vars : SolvePDE(v)
+  \/ \E v \in Vars : SolveFails(v)
   \/ \E v, r \in Vars : SolveExplicit(v, r)
   \/ \E r \in Vars, b \in BCs : SolveMatrix(r, b)
   \/ \E v \in Vars, k \in BuildKinds : Build(v, k)
